@@ -194,6 +194,23 @@ theorem ring_owned_blocks_flagged (cap n : Nat) (locked : Bool) (progs : List (L
   have hc := (c.own b).mp ho
   rcases c.use b h0 with h | ⟨t, h⟩ <;> (rw [hc] at h; cases h)
 
+/-- **Clause 2, ring pool (never skips a free block).** The ring pool has no failure path
+(the model's `alloc` only ever returns a block: exhaustion is never reported, the clause
+"exhaustion only when exhausted" is vacuous). What can be said about progress: a probe fails
+only on a block that is not in the pool — held by a client, inside `free`, or just taken. -/
+theorem ring_probe_fails_only_on_busy (cap n : Nat) (locked : Bool) (progs : List (List Op)) (s : Ring.St)
+    (hr : Reach Ring.step (Ring.mkInit cap n locked progs) s) (hl : s.g.illegal = 0) (hm : s.misuse = 0)
+    (b : Nat) (hbusy : s.inUse b ≠ 0) : s.loc b ≠ .pool := by
+  have c := Ring.reach_inv hr ⟨hl, hm⟩
+  intro h
+  exact hbusy (c.pf b h)
+
+/- Not proved (`ring_alloc_terminates`, the remaining half of "served indefinitely" for the ring
+pool): the index walk `alloc_idx ↦ (alloc_idx + 1) & (cap - 1)` visits every block within `cap`
+probes, hence an allocation completes within `cap` probes after a moment at which some block is
+in the pool and stays there. The walk is exercised by the correspondence (every ring run must
+end `ok`), the missing piece is the induction over the probe loop in the step model. -/
+
 /-- with the spin-locked entry point the program never breaks the threading contract: the
 `misuse` monitor stays 0 for every program, so `ring_no_double_handout` needs no hypothesis on it -/
 theorem ring_locked_no_misuse (cap n : Nat) (progs : List (List Op)) (s : Ring.St)
